@@ -307,7 +307,20 @@ theorem inv_sendReply {s t : St} {w : Int} (h : SInv s) (hs : evSendReply s w = 
     have hnp : s.authPassed = false := by
       have := h.passed_iff; rw [ha] at this; simpa [APc.passed] using this
     simp only at hs
-    simp at hs; subst hs
+    by_cases hp : v = .panic
+    · subst hp
+      simp at hs; subst hs
+      refine ⟨by simp [hnp, APc.passed], ?_, h.exch_eq, h.pre_len, h.conserve, h.log_called, h.log_ok, ?_, ?_⟩
+      · intro c
+        have q := h.quiet hnp
+        simpa [quiet] using q
+      · intro hs' c
+        simp [APc.accepting] at c
+      · intro c
+        have r := h.rej hnp
+        simp [rejInv, ha] at r
+        simp [rejInv, r]
+    simp [hp] at hs; subst hs
     refine ⟨by simp [hnp, APc.passed], ?_, h.exch_eq, h.pre_len, h.conserve, h.log_called, h.log_ok, ?_, ?_⟩
     · intro c
       have q := h.quiet hnp
